@@ -197,9 +197,17 @@ func ruleStoreContracts(r *Run) {
 				continue
 			}
 			okDel := len(ops) == 1 && ops[0].Kind == "delete" && ops[0].Map == inner && ops[0].Key == "param:#1"
+			// a path that has itself found the key absent has nothing to delete (delete of a missing key is a no-op)
+			known := g["maplookup:"+inner+"[param:#1]"]
+			if known == "miss" && len(ops) == 0 {
+				okDel = true
+			}
 			r.CheckT("S-Delete", fn.Name+":delete", okDel, fn.Body.Pos(), path, "Delete removes exactly the (type, entity) key")
-			okRet := len(ret) == 1 && ret[0] == inner+"[param:#1]#1"
+			okRet := len(ret) == 1 && (ret[0] == inner+"[param:#1]#1" || (known == "miss" && ret[0] == "false") || (known == "hit" && ret[0] == "true"))
 			r.CheckT("S-Delete", fn.Name+":reports-presence", okRet, fn.Body.Pos(), path, "Delete reports whether the very key it deletes was present (returns %v)", ret)
+			if len(ops) == 0 {
+				continue
+			}
 			// the presence test precedes the delete
 			if okDel {
 				before := false
